@@ -742,3 +742,1038 @@ Proof.
   - discriminate.
   - destruct (may_true c); [exact Hf | apply flags_ok_nil'].
 Qed.
+
+Lemma dowhile_post_sc r c lo a :
+  let a2 := dowhile_post_r fx r c lo a in
+  s_fb (sc a2) = s_fb (sc a) /\ s_fc (sc a2) = s_fc (sc a) /\ s_mt (sc a2) = s_mt (sc a) /\
+  (exists e, s_end (sc a2) = Some e /\
+     (is_forced e = true ->
+        (oend_forced r = true /\ fb_unlabelled (s_fb (sc a)) = false /\ s_fc (sc a) = false) \/
+        (known_true c = true /\ fb_none (s_fb (sc a)) = true)) /\
+     (is_forced e = false -> e = EContinue)).
+Proof.
+  unfold dowhile_post_r. cbn [fixA fx repaired andb].
+  destruct r as [e|]; cbn [oend_forced].
+  - destruct (is_forced e && negb (fb_unlabelled (s_fb (sc a))) && negb (s_fc (sc a))) eqn:C1.
+    + apply andb_true_iff in C1. destruct C1 as [C1 C3]. apply andb_true_iff in C1. destruct C1 as [C1 C2].
+      cbn [set_end with_sc sc s_fb s_fc s_mt s_end]. rewrite fb_mark, fc_mark, mt_mark. dsplit; try reflexivity.
+      exists e. dsplit; [reflexivity | | intros Hn; congruence].
+      intros _. left. dsplit; [exact C1 | destruct (fb_unlabelled (s_fb (sc a))); [discriminate | reflexivity] | destruct (s_fc (sc a)); [discriminate | reflexivity]].
+    + destruct (known_true c && fb_none (s_fb (sc a))) eqn:C2; cbn [set_end with_sc sc s_fb s_fc s_mt s_end]; rewrite fb_mark, fc_mark, mt_mark; dsplit; try reflexivity.
+      * exists forced_inf. dsplit; [reflexivity | | discriminate]. intros _. right. apply andb_true_iff in C2. exact C2.
+      * exists EContinue. dsplit; [reflexivity | discriminate | reflexivity].
+  - cbn [andb]. destruct (known_true c && fb_none (s_fb (sc a))) eqn:C2; cbn [set_end with_sc sc s_fb s_fc s_mt s_end]; rewrite fb_mark, fc_mark, mt_mark; dsplit; try reflexivity.
+    + exists forced_inf. dsplit; [reflexivity | | discriminate]. intros _. right. apply andb_true_iff in C2. exact C2.
+    + exists EContinue. dsplit; [reflexivity | discriminate | reflexivity].
+Qed.
+
+Lemma dowhile_A p c lo body K : okA body K -> okA (visit_do_whileG fx p c lo body) K.
+Proof.
+  intros H x. unfold visit_do_whileG. destruct (H (child_enter KLoop x)) as [_ [Hc Hk]].
+  destruct (body (child_enter KLoop x)) as [[a r] lg]. cbn [g_st g_lg fst snd] in *.
+  dsplit; [|exact Hc | exact Hk]. eapply mono_trans; [apply mono_child_exit|]. unfold dowhile_tail.
+  match goal with |- mono _ (visit_cond c ?y) => assert (Hm : mono (child_exit fx KLoop lo x (dowhile_post_r fx r c lo a)) y) end.
+  { match goal with |- mono _ (match ?o with _ => _ end) => destruct o as [e|] end; [destruct (is_forced e); [apply mono_mark | apply mono_refl] | apply mono_refl]. }
+  eapply mono_trans; [exact Hm | apply mono_visit_cond].
+Qed.
+
+Lemma is_forced_dead e : is_forced e = true -> dead (Some e) = true.
+Proof. destruct e; try discriminate; reflexivity. Qed.
+Lemma forced_merge_dead a e : is_forced a = true -> dead (mark_val (Some a) e) = true.
+Proof. destruct a; try discriminate. intros _. destruct e; reflexivity. Qed.
+
+Lemma dowhile_B p c lo body bc Rb ls :
+  okB body bc Rb -> okB (visit_do_whileG fx p c lo body) (sem_loop CTrue c ls bc) Rb.
+Proof.
+  intros H x Hl. unfold visit_do_whileG.
+  destruct (H (child_enter KLoop x) (lv_child_enter KLoop _ Hl)) as [[P2 [P3 [P4 P5]]] [Hr Hf]].
+  destruct (body (child_enter KLoop x)) as [[a r] lg]. cbn [g_st g_rs g_lg fst snd] in *.
+  destruct (dowhile_post_sc r c lo a) as [Efb [Efc [Emt [e [Ee [Hfo Hnf]]]]]]. cbv zeta in *.
+  set (a2 := dowhile_post_r fx r c lo a) in *. rewrite Ee.
+  rewrite (mark_val_live _ e Hl).
+  assert (HF : is_forced e = true -> cN (sem_loop CTrue c ls bc) = false /\ again ls bc && cond_throws c = false).
+  { intros He. rewrite cN_sem_loop. cbn [may_false may_true andb orb].
+    destruct (Hfo He) as [[C1 [C2 C3]] | [C1 C2]].
+    - assert (Hb : cB0 bc = false).
+      { destruct (cB0 bc) eqn:Eb; [|reflexivity]. rewrite (P3 eq_refl) in C2. discriminate. }
+      assert (Ha : again ls bc = false).
+      { destruct (again ls bc) eqn:Ea; [|reflexivity]. destruct (again_split _ _ Ea) as [Hn|Hc].
+        - rewrite Hr in Hn; [discriminate|]. destruct r as [[R T I| |]|]; try discriminate; reflexivity.
+        - rewrite (P4 Hc) in C3. discriminate. }
+      rewrite Hb, Ha. split; reflexivity.
+    - destruct c; try discriminate. cbn [may_false cond_throws]. rewrite !andb_false_r, orb_false_r.
+      split; [|reflexivity]. destruct (cB0 bc) eqn:Eb; [|reflexivity]. rewrite (P3 eq_refl) in C2. discriminate. }
+  assert (Hend1 : s_end (sc (child_exit fx KLoop lo x a2)) = if is_forced e then Some e else s_end (sc x)).
+  { rewrite end_child_exit_loop, Ee. destruct e; reflexivity. }
+  dsplit.
+  - unfold dowhile_tail. split; [|dsplit].
+    + intros Hd. unfold dd in Hd. rewrite end_visit_cond in Hd. destruct (is_forced e) eqn:He; [apply HF; reflexivity|].
+      exfalso. rewrite Hend1 in Hd. unfold lv in Hl. rewrite live_not_dead, Hd in Hl. discriminate.
+    + rewrite cB0_sem_loop. discriminate.
+    + intros Hc. apply has_cont_sem_loop in Hc. rewrite fc_visit_cond.
+      assert (Hx1 : s_fc (sc (child_exit fx KLoop lo x a2)) = true) by (rewrite fc_child_exit, Efc, (P4 Hc); apply orb_true_r).
+      destruct (is_forced e); [rewrite fc_mark|]; exact Hx1.
+    + rewrite cT_sem_loop. cbn [cond_throws may_true andb orb]. intros Hc. apply orb_true_iff in Hc. destruct Hc as [Hc|Hc].
+      * apply mt_visit_cond_mono.
+        assert (Hx1 : s_mt (sc (child_exit fx KLoop lo x a2)) = true) by (rewrite mt_child_exit, Emt, (P5 Hc); apply orb_true_r).
+        destruct (is_forced e); [rewrite mt_mark|]; exact Hx1.
+      * destruct (is_forced e) eqn:He; [destruct (HF eq_refl) as [_ Hz]; rewrite Hz in Hc; discriminate|].
+        apply andb_true_iff in Hc. destruct Hc as [_ Hc]. apply mt_visit_cond_throws; [|exact Hc].
+        unfold lv. rewrite Hend1. exact Hl.
+  - destruct (is_forced e) eqn:He; [|discriminate]. intros _. apply HF. reflexivity.
+  - exact Hf.
+Qed.
+
+Lemma for_post_sc r p c lo a :
+  let a2 := for_post_r r p c lo a in
+  s_fb (sc a2) = s_fb (sc a) /\ s_fc (sc a2) = s_fc (sc a) /\ s_mt (sc a2) = s_mt (sc a) /\
+  (oend_forced (s_end (sc a2)) = true -> for_forced c a = true).
+Proof.
+  unfold for_post_r. destruct (for_forced c a) eqn:Ef; cbn [negb orb].
+  - assert (Hb : fb_unlabelled (s_fb (sc a)) = false).
+    { unfold for_forced in Ef. destruct (fb_unlabelled (s_fb (sc a))); [discriminate | reflexivity]. }
+    rewrite Hb. rewrite fb_mark, fc_mark, mt_mark. dsplit; reflexivity.
+  - cbn [set_end with_sc sc s_fb s_fc s_mt s_end oend_forced is_forced]. rewrite fb_mark, fc_mark, mt_mark. dsplit; try reflexivity. discriminate.
+Qed.
+
+Definition for_pre (c : option cond) : cond := match c with Some c => c | None => CTrue end.
+
+Lemma for_A p c lo body K : okA body K -> okA (visit_forG fx p c lo body) K.
+Proof.
+  intros H x. unfold visit_forG.
+  set (x' := match c with Some c0 => visit_cond c0 x | None => x end).
+  destruct (H (child_enter KLoop x')) as [_ [Hc Hk]].
+  destruct (body (child_enter KLoop x')) as [[a r] lg]. cbn [g_st g_lg fst snd] in *.
+  dsplit; [|exact Hc | exact Hk].
+  eapply mono_trans; [|apply mono_child_exit]. unfold x'. destruct c; [apply mono_visit_cond | apply mono_refl].
+Qed.
+
+Lemma for_B p c lo body bc Rb ls :
+  okB body bc Rb ->
+  okB (visit_forG fx p c lo body) (sem_loop (for_pre c) CTrue ls bc) (if may_true (for_pre c) then Rb else []).
+Proof.
+  intros H x Hl. unfold visit_forG.
+  set (x' := match c with Some c0 => visit_cond c0 x | None => x end).
+  assert (Hl' : lv x') by (unfold lv, x'; destruct c; [rewrite end_visit_cond|]; exact Hl).
+  destruct (H (child_enter KLoop x') (lv_child_enter KLoop _ Hl')) as [[P2 [P3 [P4 P5]]] [Hr Hf]].
+  destruct (body (child_enter KLoop x')) as [[a r] lg]. cbn [g_st g_rs g_lg fst snd] in *.
+  destruct (for_post_sc r p c lo a) as [Efb [Efc [Emt Eend]]]. cbv zeta in *.
+  set (a2 := for_post_r r p c lo a) in *.
+  assert (HF : for_forced c a = true -> cN (sem_loop (for_pre c) CTrue ls bc) = false).
+  { intros Hff. unfold for_forced in Hff. apply andb_true_iff in Hff. destruct Hff as [Hb Hk].
+    rewrite cN_sem_loop. cbn [may_false]. rewrite andb_false_r, orb_false_r.
+    assert (Hb0 : cB0 bc = false).
+    { destruct (cB0 bc) eqn:Eb; [|reflexivity]. rewrite (P3 eq_refl) in Hb. discriminate. }
+    rewrite Hb0, andb_false_r, orb_false_r. destruct c as [[| |e]|]; try discriminate; reflexivity. }
+  dsplit.
+  - split; [|dsplit].
+    + intros Hd. apply HF. apply Eend. unfold dd in Hd. rewrite end_child_exit_loop in Hd.
+      destruct (s_end (sc a2)) as [[R T I| |]|]; try reflexivity; exfalso; unfold lv in Hl'; rewrite live_not_dead, Hd in Hl'; discriminate.
+    + rewrite cB0_sem_loop. discriminate.
+    + intros Hc. apply has_cont_sem_loop in Hc. rewrite fc_child_exit, Efc, (P4 Hc). apply orb_true_r.
+    + rewrite cT_sem_loop. cbn [cond_throws andb]. rewrite andb_false_r, orb_false_r. intros Hc. rewrite mt_child_exit.
+      apply orb_true_iff in Hc. destruct Hc as [Hc|Hc].
+      * destruct c as [c0|]; [|discriminate]. unfold x'. cbn [for_pre] in Hc. rewrite (mt_visit_cond_throws c0 x Hl Hc). reflexivity.
+      * apply andb_true_iff in Hc. destruct Hc as [_ Hc]. rewrite Emt, (P5 Hc). apply orb_true_r.
+  - destruct (for_forced c a) eqn:Ef; [|discriminate]. intros _. apply HF. reflexivity.
+  - destruct (may_true (for_pre c)); [exact Hf | apply flags_ok_nil'].
+Qed.
+
+Lemma for_in_A lo body K : okA body K -> okA (visit_for_inG fx lo body) K.
+Proof.
+  intros H x. unfold visit_for_inG. destruct (H (child_enter KLoop x)) as [_ [Hc Hk]].
+  destruct (body (child_enter KLoop x)) as [[a r] lg]. cbn [g_st g_lg fst snd] in *.
+  dsplit; [apply mono_child_exit | exact Hc | exact Hk].
+Qed.
+
+Lemma for_in_B lo body bc Rb ls :
+  okB body bc Rb -> okB (visit_for_inG fx lo body) (sem_loop opaque CTrue ls bc) Rb.
+Proof.
+  intros H x Hl. unfold visit_for_inG.
+  destruct (H (child_enter KLoop x) (lv_child_enter KLoop _ Hl)) as [[P2 [P3 [P4 P5]]] [Hr Hf]].
+  destruct (body (child_enter KLoop x)) as [[a r] lg]. cbn [g_st g_rs g_lg fst snd] in *.
+  dsplit.
+  - apply post_sc_live.
+    + unfold lv. rewrite end_child_exit_loop. unfold forin_post. cbn [set_end with_sc sc s_end]. exact Hl.
+    + rewrite cB0_sem_loop. discriminate.
+    + intros Hc. apply has_cont_sem_loop in Hc. rewrite fc_child_exit. unfold forin_post. cbn [set_end with_sc sc s_fc].
+      rewrite fc_mark, (P4 Hc). apply orb_true_r.
+    + rewrite cT_sem_loop. cbn [opaque cond_throws e_throws may_true andb orb]. rewrite andb_false_r, orb_false_r. intros Hc.
+      rewrite mt_child_exit. unfold forin_post. cbn [set_end with_sc sc s_mt]. rewrite mt_mark, (P5 Hc). apply orb_true_r.
+  - discriminate.
+  - exact Hf.
+Qed.
+
+(* labelled statement *)
+Definition lab_comps (l : N) (c : comps) : comps :=
+  {| cN := cN c || memN l (cBL c); cR := cR c; cT := cT c; cB0 := cB0 c; cC0 := cC0 c;
+     cBL := filter (fun x => negb (N.eqb x l)) (cBL c); cCL := cCL c |}.
+
+Lemma label_A l p op K : okA op K -> okA (fun x => let '(y, _, lg) := with_childG fx (KLabel l) p op x in (y, None, lg)) K.
+Proof.
+  intros H x. destruct (with_child_A (KLabel l) p op K H x) as [Hm [Hc Hk]].
+  destruct (with_childG fx (KLabel l) p op x) as [[y r] lg]. cbn [g_st g_lg fst snd] in *. dsplit; assumption.
+Qed.
+
+Lemma label_B l p op cb Rb :
+  okB op cb Rb -> okB (fun x => let '(y, _, lg) := with_childG fx (KLabel l) p op x in (y, None, lg)) (lab_comps l cb) Rb.
+Proof.
+  intros H x Hl. unfold with_childG.
+  destruct (H (child_enter (KLabel l) x) (lv_child_enter (KLabel l) _ Hl)) as [[P2 [P3 [P4 P5]]] [Hr Hf]].
+  destruct (op (child_enter (KLabel l) x)) as [[c r] lg]. cbn [g_st g_rs g_lg fst snd] in *.
+  dsplit; [|discriminate | exact Hf].
+  apply post_sc_live.
+  - unfold lv. rewrite end_child_exit_label. exact Hl.
+  - cbn [lab_comps cB0]. intros Hb. apply fb_child_exit_child; [reflexivity | apply P3; exact Hb].
+  - intros Hb. rewrite fc_child_exit, P4; [apply orb_true_r | exact Hb].
+  - cbn [lab_comps cT]. intros Hb. rewrite mt_child_exit, (P5 Hb). apply orb_true_r.
+Qed.
+
+(* ------------------------------------------------------------------ *)
+(* statement lists *)
+Definition consG (s : stmt) (hd : st -> gres) (tl : st -> gres_l) (y : st) : gres_l :=
+  let '(y1, r1, lg1) := hd y in
+  let '(y2, tops, lg2) := tl y1 in
+  (y2, r1 :: tops, lg1 ++ lg2).
+
+Lemma nil_A : okAl (fun y => (y, [], [])) [].
+Proof. intros x. cbn [l_st l_lg fst snd]. dsplit; [apply mono_refl | apply cases_ok_nil | apply lkeys_in_nil]. Qed.
+Lemma nil_B : okBl (fun y => (y, [], [])) only_N [].
+Proof.
+  intros x Hl. cbn [l_st l_tops l_lg fst snd]. dsplit; [|intros H; cbn in H; discriminate | apply flags_ok_nil].
+  apply post_sc_live; [exact Hl | discriminate | discriminate | discriminate].
+Qed.
+
+Lemma cons_A s hd tl K1 K2 : okA hd K1 -> okAl tl K2 -> okAl (consG s hd tl) (K1 ++ K2).
+Proof.
+  intros H1 H2 x. unfold consG. destruct (H1 x) as [Hm1 [Hc1 Hk1]]. destruct (hd x) as [[y1 r1] lg1]. cbn [g_st g_lg fst snd] in *.
+  destruct (H2 y1) as [Hm2 [Hc2 Hk2]]. destruct (tl y1) as [[y2 tops] lg2]. cbn [l_st l_lg fst snd] in *.
+  dsplit; [eapply mono_trans; eassumption | apply cases_ok_app; assumption|].
+  apply lkeys_in_app; [eapply lkeys_in_weak; [exact Hk1 | apply incl_appl, incl_refl] | eapply lkeys_in_weak; [exact Hk2 | apply incl_appr, incl_refl]].
+Qed.
+
+Lemma cons_B s hd tl c1 c2 R1 R2 K1 K2 :
+  okB hd c1 R1 -> okBl tl c2 R2 -> okA hd K1 -> okAl tl K2 ->
+  (forall k, In k K1 -> ~ In k R2) -> (forall k, In k K2 -> ~ In k R1) ->
+  okBl (consG s hd tl) (if cN c1 then cunion (cset_N false c1) c2 else c1) (R1 ++ (if cN c1 then R2 else [])).
+Proof.
+  intros H1 H2 A1 A2 D12 D21 x Hl. unfold consG.
+  destruct (H1 x Hl) as [[P2 [P3 [P4 P5]]] [Hr Hf]]. destruct (A1 x) as [_ [_ Hk1]].
+  destruct (hd x) as [[y1 r1] lg1]. cbn [g_st g_rs g_lg fst snd] in *.
+  destruct (A2 y1) as [Hm2 [_ Hk2]].
+  destruct (lv_or_dd y1) as [Hl1 | Hd1].
+  - (* the head leaves the scope live *)
+    destruct (H2 y1 Hl1) as [[Q2 [Q3 [Q4 Q5]]] [Qr Qf]].
+    destruct (tl y1) as [[y2 tops] lg2]. cbn [l_st l_tops l_lg fst snd] in *. destruct Hm2 as [M1 [M2 M3]].
+    destruct (cN c1) eqn:En.
+    + dsplit.
+      * split; [|dsplit].
+        -- intros Hd. cbn [cunion cset_N cN orb]. apply Q2. exact Hd.
+        -- cbn [cunion cset_N cB0]. intros Hb. apply orb_true_iff in Hb. destruct Hb as [Hb|Hb]; [apply M1, P3; exact Hb | apply Q3; exact Hb].
+        -- rewrite has_cont_cunion, has_cont_cset_N. intros Hb. apply orb_true_iff in Hb. destruct Hb as [Hb|Hb]; [apply M2, P4; exact Hb | apply Q4; exact Hb].
+        -- cbn [cunion cset_N cT]. intros Hb. apply orb_true_iff in Hb. destruct Hb as [Hb|Hb]; [apply M3, P5; exact Hb | apply Q5; exact Hb].
+      * cbn [tops_stop existsb]. fold (tops_stop tops). intros Hb. apply orb_true_iff in Hb. destruct Hb as [Hb|Hb].
+        -- discriminate (Hr Hb).
+        -- cbn [cunion cset_N cN orb]. apply Qr. exact Hb.
+      * apply flags_ok_app_l; apply flags_ok_app_r; [exact Hf | eapply flags_ok_disjoint; [exact Hk1 | exact D12] | eapply flags_ok_disjoint; [exact Hk2 | exact D21] | exact Qf].
+    + dsplit.
+      * split; [intros _; exact En | dsplit].
+        -- intros Hb. apply M1, P3. exact Hb.
+        -- intros Hb. apply M2, P4. exact Hb.
+        -- intros Hb. apply M3, P5. exact Hb.
+      * intros _. exact En.
+      * rewrite app_nil_r. apply flags_ok_app_l; [exact Hf | eapply flags_ok_disjoint; [exact Hk2 | exact D21]].
+  - (* the head leaves the scope dead: it cannot complete normally, the tail is not executed *)
+    assert (En : cN c1 = false) by (apply P2; exact Hd1). rewrite En.
+    destruct (tl y1) as [[y2 tops] lg2]. cbn [l_st l_tops l_lg fst snd] in *. destruct Hm2 as [M1 [M2 M3]].
+    dsplit.
+    + split; [intros _; exact En | dsplit].
+      * intros Hb. apply M1, P3. exact Hb.
+      * intros Hb. apply M2, P4. exact Hb.
+      * intros Hb. apply M3, P5. exact Hb.
+    + intros _. exact En.
+    + rewrite app_nil_r. apply flags_ok_app_l; [exact Hf | eapply flags_ok_disjoint; [exact Hk2 | exact D21]].
+Qed.
+
+(* ------------------------------------------------------------------ *)
+(* switch *)
+Definition gres_c := (st * list (option End) * list gent)%type.
+Definition c_st (r : gres_c) : st := fst (fst r).
+Definition c_rs (r : gres_c) : list (option End) := snd (fst r).
+Definition c_lg (r : gres_c) : list gent := snd r.
+Definition all_forced (rs : list (option End)) : bool := forallb oend_forced rs.
+
+Definition okAc (op : st -> gres_c) (K : list N) : Prop :=
+  forall y, mono y (c_st (op y)) /\ cases_ok (c_lg (op y)) /\ lkeys_in (c_lg (op y)) K.
+Definition okBc (op : st -> gres_c) (ca : comps) (R : list N) : Prop :=
+  forall y, lv y ->
+    s_end (sc (c_st (op y))) = s_end (sc y) /\
+    (has_cont ca = true -> s_fc (sc (c_st (op y))) = true) /\
+    (cT ca = true -> s_mt (sc (c_st (op y))) = true) /\
+    (forall r, In r (c_rs (op y)) -> r <> None) /\
+    (all_forced (c_rs (op y)) = true -> cN ca = false /\ cB0 ca = false) /\
+    flags_ok (c_lg (op y)) R.
+
+Lemma case_A cp b cons K Rb :
+  okAl cons K -> okBl cons (csem_l b) Rb -> okA (visit_caseG fx cp b cons) K.
+Proof.
+  intros HA HB y. unfold visit_caseG.
+  destruct (HA (child_enter KCase y)) as [_ [Hc Hk]].
+  assert (HB' := HB (child_enter KCase y)).
+  destruct (cons (child_enter KCase y)) as [[c tops] lg]. cbn [g_st g_lg l_st l_tops l_lg fst snd] in *.
+  dsplit.
+  - eapply mono_trans; [apply (mono_child_exit KCase cp y c)|]. eapply mono_trans; [apply mono_mark | apply mono_set_end].
+  - intros b' [E | Hin]; [|apply Hc; exact Hin].
+    injection E as <- El Es. apply HB'; [|exact Es]. apply lv_child_enter. unfold lv. exact El.
+  - apply lkeys_in_case. exact Hk.
+Qed.
+
+Lemma case_end_forced c e : case_end_of (sc c) = e -> is_forced e = true -> s_fb (sc c) = None /\ dd c.
+Proof.
+  unfold case_end_of, dd. destruct (s_fb (sc c)); [intros <-; discriminate|].
+  destruct (s_end (sc c)) as [[r t i| |]|]; intros <-; try discriminate. intros _. split; reflexivity.
+Qed.
+
+Lemma case_B cp b cons cb Rb :
+  okBl cons cb Rb ->
+  forall y, lv y ->
+    s_end (sc (g_st (visit_caseG fx cp b cons y))) = s_end (sc y) /\
+    (has_cont cb = true -> s_fc (sc (g_st (visit_caseG fx cp b cons y))) = true) /\
+    (cT cb = true -> s_mt (sc (g_st (visit_caseG fx cp b cons y))) = true) /\
+    g_rs (visit_caseG fx cp b cons y) <> None /\
+    (oend_forced (g_rs (visit_caseG fx cp b cons y)) = true -> cN cb = false /\ cB0 cb = false) /\
+    flags_ok (g_lg (visit_caseG fx cp b cons y)) Rb.
+Proof.
+  intros HB y Hl. unfold visit_caseG.
+  destruct (HB (child_enter KCase y) (lv_child_enter KCase _ Hl)) as [[P2 [P3 [P4 P5]]] [Hr Hf]].
+  destruct (cons (child_enter KCase y)) as [[c tops] lg]. cbn [g_st g_rs g_lg l_st l_tops l_lg fst snd] in *.
+  assert (Hl1 : live (s_end (sc (child_exit fx KCase cp y c))) = true) by (rewrite end_child_exit_case; exact Hl).
+  rewrite (mark_val_live _ _ Hl1).
+  dsplit.
+  - reflexivity.
+  - intros Hb. cbn [set_end with_sc sc s_fc]. rewrite fc_mark, fc_child_exit, (P4 Hb). apply orb_true_r.
+  - intros Hb. cbn [set_end with_sc sc s_mt]. rewrite mt_mark, mt_child_exit, (P5 Hb). apply orb_true_r.
+  - discriminate.
+  - cbn [oend_forced]. intros He. destruct (case_end_forced c _ eq_refl He) as [Hfb Hd].
+    split; [apply P2; exact Hd|]. destruct (cB0 cb) eqn:Eb; [|reflexivity]. rewrite (P3 eq_refl) in Hfb. discriminate.
+  - apply flags_ok_case. exact Hf.
+Qed.
+
+Definition consC (hd : st -> gres) (tl : st -> gres_c) (y : st) : gres_c :=
+  let '(y1, r1, lg1) := hd y in
+  let '(y2, rs, lg2) := tl y1 in
+  (y2, r1 :: rs, lg1 ++ lg2).
+
+Lemma nilC_A : okAc (fun y => (y, [], [])) [].
+Proof. intros y. cbn [c_st c_lg fst snd]. dsplit; [apply mono_refl | apply cases_ok_nil | apply lkeys_in_nil]. Qed.
+Lemma nilC_B : okBc (fun y => (y, [], [])) cempty [].
+Proof.
+  intros y Hl. cbn [c_st c_rs c_lg fst snd]. split; [reflexivity|]. split; [discriminate|]. split; [discriminate|].
+  split; [intros r []|]. split; [intros _; split; reflexivity | apply flags_ok_nil].
+Qed.
+
+Lemma consC_A hd tl K1 K2 : okA hd K1 -> okAc tl K2 -> okAc (consC hd tl) (K1 ++ K2).
+Proof.
+  intros H1 H2 x. unfold consC. destruct (H1 x) as [Hm1 [Hc1 Hk1]]. destruct (hd x) as [[y1 r1] lg1]. cbn [g_st g_lg fst snd] in *.
+  destruct (H2 y1) as [Hm2 [Hc2 Hk2]]. destruct (tl y1) as [[y2 rs] lg2]. cbn [c_st c_lg fst snd] in *.
+  dsplit; [eapply mono_trans; eassumption | apply cases_ok_app; assumption|].
+  apply lkeys_in_app; [eapply lkeys_in_weak; [exact Hk1 | apply incl_appl, incl_refl] | eapply lkeys_in_weak; [exact Hk2 | apply incl_appr, incl_refl]].
+Qed.
+
+Lemma fst_snd_csem_c cs :
+  (has_cont (fst (csem_c cs)) = true -> has_cont (snd (csem_c cs)) = true) /\
+  (cT (fst (csem_c cs)) = true -> cT (snd (csem_c cs)) = true).
+Proof.
+  destruct cs as [|cp d ft b r]; cbn [csem_c fst snd]; [split; discriminate|].
+  rewrite has_cont_cunion. cbn [cunion cT]. split; intros H; rewrite H; reflexivity.
+Qed.
+
+Lemma consC_B cp b cons tl cb r K1 K2 Rb R2 :
+  okBl cons cb Rb -> okAl cons K1 -> okBl cons (csem_l b) Rb -> cb = csem_l b ->
+  okBc tl (snd (csem_c r)) R2 -> okAc tl K2 ->
+  (forall k, In k K1 -> ~ In k R2) -> (forall k, In k K2 -> ~ In k Rb) ->
+  okBc (consC (visit_caseG fx cp b cons) tl)
+       (cunion (if cN cb then cunion (cset_N false cb) (fst (csem_c r)) else cb) (snd (csem_c r)))
+       (Rb ++ R2).
+Proof.
+  intros HB HA HB' Ecb HT HTA D12 D21 y Hl. unfold consC.
+  destruct (case_B cp b cons cb Rb HB y Hl) as [E1 [F1 [T1 [N1 [A1 G1]]]]].
+  destruct (case_A cp b cons K1 Rb HA HB' y) as [_ [_ Hk1]].
+  destruct (visit_caseG fx cp b cons y) as [[y1 r1] lg1]. cbn [g_st g_rs g_lg fst snd] in *.
+  assert (Hl1 : lv y1) by (unfold lv; rewrite E1; exact Hl).
+  destruct (HT y1 Hl1) as [E2 [F2 [T2 [N2 [A2 G2]]]]]. destruct (HTA y1) as [[_ [M2 M3]] [_ Hk2]].
+  destruct (tl y1) as [[y2 rs] lg2]. cbn [c_st c_rs c_lg fst snd] in *.
+  destruct (fst_snd_csem_c r) as [FS1 FS2].
+  dsplit.
+  - rewrite E2. exact E1.
+  - rewrite has_cont_cunion. intros Hb. apply orb_true_iff in Hb. destruct Hb as [Hb|Hb]; [|apply F2; exact Hb].
+    destruct (cN cb); [|apply M2, F1; exact Hb].
+    rewrite has_cont_cunion, has_cont_cset_N in Hb. apply orb_true_iff in Hb. destruct Hb as [Hb|Hb]; [apply M2, F1; exact Hb | apply F2, FS1; exact Hb].
+  - cbn [cunion cT]. intros Hb. apply orb_true_iff in Hb. destruct Hb as [Hb|Hb]; [|apply T2; exact Hb].
+    destruct (cN cb); [|apply M3, T1; exact Hb].
+    cbn [cunion cset_N cT] in Hb. apply orb_true_iff in Hb. destruct Hb as [Hb|Hb]; [apply M3, T1; exact Hb | apply T2, FS2; exact Hb].
+  - intros r0 [<-|Hin]; [exact N1 | apply N2; exact Hin].
+  - cbn [all_forced forallb]. fold (all_forced rs). intros Hb. apply andb_true_iff in Hb. destruct Hb as [Hb1 Hb2].
+    destruct (A1 Hb1) as [Z1 Z2]. destruct (A2 Hb2) as [Z3 Z4]. rewrite Z1. cbn [cunion cN cB0]. rewrite Z1, Z2, Z3, Z4. split; reflexivity.
+  - apply flags_ok_app_l; apply flags_ok_app_r; [exact G1 | eapply flags_ok_disjoint; [exact Hk1 | exact D12] | eapply flags_ok_disjoint; [exact Hk2 | exact D21] | exact G2].
+Qed.
+
+Lemma switch_forcedG_forced rs a e :
+  switch_forcedG rs (Some a) = Some e -> is_forced a = true -> (forall r, In r rs -> r <> None) ->
+  is_forced e = true /\ all_forced rs = true.
+Proof.
+  revert a. induction rs as [|r rs IH]; intros a H Ha Hn; cbn [switch_forcedG] in H.
+  - injection H as <-. split; [exact Ha | reflexivity].
+  - destruct r as [cur|]; [|exfalso; apply (Hn None); [left; reflexivity | reflexivity]].
+    destruct (merge_forced a cur) as [m|] eqn:Em.
+    + destruct a; try discriminate. destruct cur; try discriminate. cbn [merge_forced] in Em. injection Em as <-.
+      destruct (IH _ H eq_refl (fun r0 Hin => Hn r0 (or_intror Hin))) as [He Hall].
+      split; [exact He|]. cbn [all_forced forallb oend_forced is_forced andb]. exact Hall.
+    + exfalso. clear -H. induction rs as [|r rs IH]; cbn [switch_forcedG] in H; [discriminate | apply IH; exact H].
+Qed.
+
+Lemma switch_A p cs opc K : okAc opc K -> okA (visit_switchG p cs opc) K.
+Proof.
+  intros H x. unfold visit_switchG. destruct (H x) as [Hm [Hc Hk]]. destruct (opc x) as [[x1 rs] lg]. cbn [g_st g_lg c_st c_lg fst snd] in *.
+  dsplit; [|exact Hc | exact Hk]. eapply mono_trans; [exact Hm|]. unfold switch_tail.
+  match goal with |- mono _ (if ?b then _ else _) => destruct b end; [apply mono_mark | eapply mono_trans; [apply mono_mark | apply mono_set_end]].
+Qed.
+
+Lemma switch_B p cs opc ca R :
+  okBc opc ca R ->
+  okB (visit_switchG p cs opc)
+      {| cN := cN ca || cB0 ca || negb (has_default cs); cR := cR ca; cT := cT ca; cB0 := false; cC0 := cC0 ca;
+         cBL := cBL ca; cCL := cCL ca |} R.
+Proof.
+  intros H x Hl. unfold visit_switchG. destruct (H x Hl) as [E1 [F1 [T1 [N1 [A1 G1]]]]].
+  destruct (opc x) as [[x1 rs] lg]. cbn [g_st g_rs g_lg c_st c_rs c_lg fst snd] in *.
+  assert (Hl1 : live (s_end (sc x1)) = true) by (rewrite E1; exact Hl).
+  set (e := switch_end (switch_forcedG rs (Some (Forced false false false))) (has_default cs)).
+  assert (HF : is_forced e = true -> cN ca || cB0 ca || negb (has_default cs) = false).
+  { unfold e, switch_end. destruct (switch_forcedG rs (Some (Forced false false false))) as [e0|] eqn:Es; [|discriminate].
+    destruct (has_default cs); [|discriminate]. intros He.
+    destruct (switch_forcedG_forced _ _ _ Es eq_refl N1) as [_ Hall]. destruct (A1 Hall) as [Z1 Z2]. rewrite Z1, Z2. reflexivity. }
+  assert (Hdead : dead (Some e) = true -> is_forced e = true).
+  { unfold e, switch_end. destruct (switch_forcedG rs (Some (Forced false false false))) as [e0|] eqn:Es; [|discriminate].
+    destruct (has_default cs); [|discriminate].
+    destruct (switch_forcedG_forced _ _ _ Es eq_refl N1) as [He _]. intros _. exact He. }
+  rewrite (mark_val_live _ _ Hl1). dsplit.
+  - unfold switch_tail. destruct (is_forced e) eqn:He.
+    + split; [intros _; cbn [cN]; apply HF; reflexivity|]. rewrite fb_mark, fc_mark, mt_mark. dsplit; [discriminate | exact F1 | exact T1].
+    + apply post_sc_live; [exact Hl | discriminate | | ]; cbn [set_end with_sc sc s_fc s_mt]; rewrite ?fc_mark, ?mt_mark; [exact F1 | exact T1].
+  - intros Hd. cbn [cN]. apply HF, Hdead. exact Hd.
+  - exact G1.
+Qed.
+
+(* ------------------------------------------------------------------ *)
+(* try *)
+Lemma tcm_sc tbe x :
+  s_fb (sc (try_catch_merge tbe x)) = s_fb (sc x) /\ s_fc (sc (try_catch_merge tbe x)) = s_fc (sc x) /\
+  s_mt (sc (try_catch_merge tbe x)) = s_mt (sc x).
+Proof.
+  unfold try_catch_merge. destruct (only_throw tbe); [dsplit; reflexivity|].
+  destruct tbe as [a|]; destruct (s_end (sc x)) as [b|]; try (dsplit; reflexivity).
+  - destruct a, b; cbn [is_forced andb merge_forced]; dsplit; reflexivity.
+  - destruct b; cbn [is_forced]; dsplit; reflexivity.
+Qed.
+
+Lemma tcm_dead tbe x : dd (try_catch_merge tbe x) -> dead tbe = true /\ dd x.
+Proof.
+  unfold try_catch_merge, dd. destruct (only_throw tbe) eqn:Eo.
+  - intros H. split; [|exact H]. destruct tbe as [[r t i| |]|]; try discriminate; reflexivity.
+  - destruct tbe as [a|]; destruct (s_end (sc x)) as [b|] eqn:Eb.
+    + destruct a, b; cbn [is_forced andb merge_forced set_end with_sc sc s_end set_panic]; rewrite ?Eb; cbn; intros H; try discriminate; split; reflexivity.
+    + cbn. rewrite Eb. discriminate.
+    + destruct b; cbn [is_forced set_end with_sc sc s_end]; rewrite ?Eb; cbn; discriminate.
+    + rewrite Eb. cbn. discriminate.
+Qed.
+
+Lemma tfm_sc tce x :
+  s_fb (sc (try_finally_merge tce x)) = s_fb (sc x) /\ s_fc (sc (try_finally_merge tce x)) = s_fc (sc x) /\
+  s_mt (sc (try_finally_merge tce x)) = s_mt (sc x).
+Proof.
+  unfold try_finally_merge. destruct tce as [a|]; [|dsplit; reflexivity].
+  destruct (s_end (sc x)) as [[r t i| |]|]; try (dsplit; reflexivity). destruct (is_forced a); dsplit; reflexivity.
+Qed.
+
+(* dead after the finalizer merge: either the try/catch part was dead, or the finalizer's own end is *)
+Lemma tfm_dead tce x : dd (try_finally_merge tce x) -> dead tce = true \/ dd x.
+Proof.
+  unfold try_finally_merge, dd. destruct tce as [a|]; [|intros H; right; exact H].
+  destruct (s_end (sc x)) as [[r t i| |]|] eqn:Eb.
+  - rewrite Eb. intros H. right. exact H.
+  - destruct (is_forced a) eqn:Ea; cbn [set_end with_sc sc s_end]; [intros _; left; apply is_forced_dead; exact Ea | rewrite Eb; intros H; right; exact H].
+  - cbn [set_end with_sc sc s_end]. intros H. left. exact H.
+  - cbn [set_end with_sc sc s_end]. intros H. left. exact H.
+Qed.
+
+Definition mono2 (x y : st) : Prop :=
+  (s_fb (sc x) = Some None -> s_fb (sc y) = Some None) /\ (s_fc (sc x) = true -> s_fc (sc y) = true).
+Lemma mono_mono2 x y : mono x y -> mono2 x y.
+Proof. intros [A [B _]]. split; assumption. Qed.
+Lemma mono2_trans x y z : mono2 x y -> mono2 y z -> mono2 x z.
+Proof. intros [A1 A2] [B1 B2]. split; intros H; auto. Qed.
+Lemma mono2_sc x y : s_fb (sc x) = s_fb (sc y) -> s_fc (sc x) = s_fc (sc y) -> mono2 x y.
+Proof. intros E1 E2. unfold mono2. rewrite E1, E2. split; intros H; exact H. Qed.
+
+Lemma handler_A cp hbp prev hb K x :
+  okAl hb K ->
+  mono2 x (fst (try_handlerG fx cp hbp prev hb x)) /\ cases_ok (snd (try_handlerG fx cp hbp prev hb x)) /\
+  lkeys_in (snd (try_handlerG fx cp hbp prev hb x)) K.
+Proof.
+  intros H. unfold try_handlerG.
+  set (xa := set_mt (if s_mt (sc x) then set_end x prev else x) false).
+  destruct (with_child_A KCatch cp _ K (block_end_A hbp hb K H) xa) as [Hm [Hc Hk]].
+  destruct (with_childG fx KCatch cp (fun a => block_endG hbp (hb a)) xa) as [[xb r] lg]. cbn [g_st g_lg fst snd] in *.
+  dsplit; [|exact Hc | exact Hk].
+  eapply (mono2_trans x xa); [apply mono2_sc; unfold xa; destruct (s_mt (sc x)); reflexivity|].
+  eapply mono2_trans; [apply mono_mono2; exact Hm|].
+  destruct (s_mt (sc x)); [destruct (tcm_sc (s_end (sc x)) xb) as [E1 [E2 _]]; apply mono2_sc; symmetry; assumption | apply mono2_sc; reflexivity].
+Qed.
+
+Lemma handler_B cp hbp prev hb hc Rh K bc x :
+  live prev = true -> okBl hb hc Rh -> okAl hb K -> post_sc x bc ->
+  post_sc (fst (try_handlerG fx cp hbp prev hb x)) (sem_catch (Some (cp, hbp)) bc hc) /\
+  flags_ok (snd (try_handlerG fx cp hbp prev hb x)) (if cT bc then Rh else []).
+Proof.
+  intros Hp HB HA [P2 [P3 [P4 P5]]]. unfold try_handlerG, sem_catch.
+  destruct (s_mt (sc x)) eqn:Emt.
+  - (* the try block may throw *)
+    set (xa := set_mt (set_end x prev) false).
+    assert (Hla : lv xa) by exact Hp.
+    pose proof (block_end_B hbp hb hc Rh HB (child_enter KCatch xa) (lv_child_enter KCatch _ Hla)) as HC.
+    unfold with_childG. destruct (block_endG hbp (hb (child_enter KCatch xa))) as [[c' r] lg] eqn:Ec.
+    cbn [g_st g_rs g_lg fst snd] in *. destruct HC as [[Q2 [Q3 [Q4 Q5]]] [_ Qf]].
+    set (xb := child_exit fx KCatch cp xa c').
+    destruct (tcm_sc (s_end (sc x)) xb) as [E1 [E2 E3]].
+    assert (Hdd : dd xb -> dd c').
+    { unfold dd, xb. rewrite end_child_exit_catch. destruct (s_end (sc c')) as [e|]; [rewrite (mark_end_live _ _ Hp); intros H; exact H|].
+      intros H. exfalso. cbn in Hp. change (s_end (sc xa)) with prev in H. rewrite live_not_dead, H in Hp. discriminate. }
+    split.
+    + split; [|dsplit].
+      * intros Hd. apply tcm_dead in Hd. destruct Hd as [Hd1 Hd2].
+        assert (Z1 : cN bc = false) by (apply P2; exact Hd1). assert (Z2 : cN hc = false) by (apply Q2, Hdd; exact Hd2).
+        destruct (cT bc); [cbn [cunion cset_T cN]; rewrite Z1, Z2; reflexivity | exact Z1].
+      * rewrite E1. intros Hb. unfold xb.
+        assert (Hb' : cB0 bc = true \/ cB0 hc = true).
+        { destruct (cT bc); [cbn [cunion cset_T cB0] in Hb; apply orb_true_iff in Hb; exact Hb | left; exact Hb]. }
+        destruct Hb' as [Hb'|Hb']; [apply fb_child_exit_mono; apply P3; exact Hb' | apply fb_child_exit_child; [reflexivity | apply Q3; exact Hb']].
+      * rewrite E2. intros Hb. unfold xb. rewrite fc_child_exit.
+        assert (Hb' : has_cont bc = true \/ has_cont hc = true).
+        { destruct (cT bc); [rewrite has_cont_cunion, has_cont_cset_T in Hb; apply orb_true_iff in Hb; exact Hb | left; exact Hb]. }
+        destruct Hb' as [Hb'|Hb']; [change (s_fc (sc xa)) with (s_fc (sc x)); rewrite (P4 Hb'); reflexivity | rewrite (Q4 Hb'); apply orb_true_r].
+      * rewrite E3. intros Hb. unfold xb. rewrite mt_child_exit.
+        destruct (cT bc) eqn:Et; [|congruence]. cbn [cunion cset_T cT orb] in Hb. rewrite (Q5 Hb). apply orb_true_r.
+    + destruct (cT bc); [exact Qf | apply flags_ok_nil'].
+  - (* the analysis says the try block cannot throw: by P5 it cannot *)
+    assert (Et : cT bc = false) by (destruct (cT bc) eqn:Et; [pose proof (P5 eq_refl) as Hq; congruence | reflexivity]).
+    rewrite Et. set (xa := set_mt x false).
+    destruct (with_child_A KCatch cp _ K (block_end_A hbp hb K HA) xa) as [[M1 [M2 _]] _].
+    destruct (with_childG fx KCatch cp (fun a => block_endG hbp (hb a)) xa) as [[xb r] lg]. cbn [g_st g_lg fst snd] in *.
+    split; [|apply flags_ok_nil'].
+    split; [intros Hd; apply P2; exact Hd | dsplit].
+    + intros Hb. cbn [set_end with_sc sc s_fb]. apply M1. apply P3. exact Hb.
+    + intros Hb. cbn [set_end with_sc sc s_fc]. apply M2. apply P4. exact Hb.
+    + intros Hb. change (cT bc = true) in Hb. congruence.
+Qed.
+
+Lemma finalizer_A fp prev fb K x :
+  okAl fb K ->
+  mono x (fst (try_finalizerG fx fp prev fb x)) /\ cases_ok (snd (try_finalizerG fx fp prev fb x)) /\
+  lkeys_in (snd (try_finalizerG fx fp prev fb x)) K.
+Proof.
+  intros H. unfold try_finalizerG.
+  destruct (with_child_A KFinally fp _ K (block_end_A fp fb K H) (set_end x prev)) as [Hm [Hc Hk]].
+  destruct (with_childG fx KFinally fp (fun a => block_endG fp (fb a)) (set_end x prev)) as [[xb r] lg]. cbn [g_st g_lg fst snd] in *.
+  dsplit; [|exact Hc | exact Hk].
+  eapply mono_trans; [apply (mono_set_end x prev)|]. eapply mono_trans; [exact Hm|].
+  destruct (tfm_sc (s_end (sc x)) xb) as [E1 [E2 E3]]. unfold mono. rewrite E1, E2, E3. dsplit; intros Hx; exact Hx.
+Qed.
+
+Lemma finalizer_B fp prev fb fc Rf tc x :
+  live prev = true -> okBl fb fc Rf -> post_sc x tc ->
+  post_sc (fst (try_finalizerG fx fp prev fb x)) (sem_fin (Some fp) tc fc) /\
+  flags_ok (snd (try_finalizerG fx fp prev fb x)) (if cnonempty tc then Rf else []).
+Proof.
+  intros Hp HB [P2 [P3 [P4 P5]]]. unfold try_finalizerG, sem_fin.
+  set (xa := set_end x prev). assert (Hla : lv xa) by exact Hp.
+  pose proof (block_end_B fp fb fc Rf HB (child_enter KFinally xa) (lv_child_enter KFinally _ Hla)) as HC.
+  unfold with_childG. destruct (block_endG fp (fb (child_enter KFinally xa))) as [[c' r] lg] eqn:Ec.
+  cbn [g_st g_rs g_lg fst snd] in *. destruct HC as [[Q2 [Q3 [Q4 Q5]]] [_ Qf]].
+  set (xb := child_exit fx KFinally fp xa c').
+  destruct (tfm_sc (s_end (sc x)) xb) as [E1 [E2 E3]].
+  assert (Hdd : dd xb -> dd c').
+  { unfold dd, xb. rewrite end_child_exit_finally. destruct (s_end (sc c')) as [e|]; [rewrite (mark_end_live _ _ Hp); intros H; exact H|].
+    intros H. exfalso. change (s_end (sc xa)) with prev in H. rewrite live_not_dead, H in Hp. discriminate. }
+  split; [|destruct (cnonempty tc); [exact Qf | apply flags_ok_nil']].
+  destruct (cnonempty tc); [|split; [reflexivity | dsplit; discriminate]].
+  split; [|dsplit].
+  - intros Hd. cbn [cunion cset_N cN]. rewrite orb_false_r. apply tfm_dead in Hd. destruct Hd as [Hd|Hd].
+    + destruct (cN fc); [exact (P2 Hd) | reflexivity].
+    + rewrite (Q2 (Hdd Hd)). reflexivity.
+  - rewrite E1. cbn [cunion cset_N cB0]. intros Hb. apply orb_true_iff in Hb. unfold xb. destruct Hb as [Hb|Hb].
+    + apply fb_child_exit_mono. apply P3. destruct (cN fc); [exact Hb | discriminate].
+    + apply fb_child_exit_child; [reflexivity | apply Q3; exact Hb].
+  - rewrite E2. rewrite has_cont_cunion, has_cont_cset_N. intros Hb. apply orb_true_iff in Hb. unfold xb. rewrite fc_child_exit. destruct Hb as [Hb|Hb].
+    + change (s_fc (sc xa)) with (s_fc (sc x)). rewrite P4; [reflexivity|]. destruct (cN fc); [exact Hb | discriminate].
+    + rewrite (Q4 Hb). apply orb_true_r.
+  - rewrite E3. cbn [cunion cset_N cT]. intros Hb. apply orb_true_iff in Hb. unfold xb. rewrite mt_child_exit. destruct Hb as [Hb|Hb].
+    + change (s_mt (sc xa)) with (s_mt (sc x)). rewrite P5; [reflexivity|]. destruct (cN fc); [exact Hb | discriminate].
+    + rewrite (Q5 Hb). apply orb_true_r.
+Qed.
+
+Lemma mark_end_same e : mark_end (Some e) e = Some e.
+Proof. destruct e; reflexivity. Qed.
+
+Lemma try_finish_B p old x c :
+  post_sc x c ->
+  post_sc (try_finish p old x) c /\
+  (dead (match s_end (sc x) with Some e => mark_val (s_end (sc x)) e | None => None end) = true -> cN c = false).
+Proof.
+  intros [P2 [P3 [P4 P5]]]. unfold try_finish.
+  assert (Hend : s_end (sc (match s_end (sc x) with Some e => mark_as_end p e x | None => x end)) = s_end (sc x)).
+  { destruct (s_end (sc x)) as [e|] eqn:E; [rewrite end_mark, E; apply mark_end_same | exact E]. }
+  split.
+  - split; [|dsplit].
+    + intros Hd. apply P2. unfold dd in *. cbn [set_mt with_sc sc s_end] in Hd. rewrite Hend in Hd. exact Hd.
+    + intros Hb. cbn [set_mt with_sc sc s_fb]. destruct (s_end (sc x)); [rewrite fb_mark|]; apply P3; exact Hb.
+    + intros Hb. cbn [set_mt with_sc sc s_fc]. destruct (s_end (sc x)); [rewrite fc_mark|]; apply P4; exact Hb.
+    + intros Hb. cbn [set_mt with_sc sc s_mt]. destruct (s_end (sc x)); [rewrite mt_mark|]; rewrite (P5 Hb); reflexivity.
+  - intros Hd. apply P2. unfold dd. destruct (s_end (sc x)) as [[r t i| |]|]; cbn in Hd |- *; congruence.
+Qed.
+
+Definition try_reach_h (h : option (N * N)) (bc : comps) (Rh : list N) : list N :=
+  match h with Some _ => if cT bc then Rh else [] | None => [] end.
+Definition try_reach_f (f : option N) (tc : comps) (Rf : list N) : list N :=
+  match f with Some _ => if cnonempty tc then Rf else [] | None => [] end.
+
+Lemma try_A p bp blk h hb f fb Kb Kh Kf :
+  okAl blk Kb -> okAl hb Kh -> okAl fb Kf -> okA (visit_tryG fx p bp blk h hb f fb) (Kb ++ Kh ++ Kf).
+Proof.
+  intros Hb Hh Hf x. unfold visit_tryG.
+  destruct (block_end_A bp blk Kb Hb (set_mt x false)) as [Hm1 [Hc1 Hk1]].
+  destruct (block_endG bp (blk (set_mt x false))) as [[x1 r1] lg1]. cbn [g_st g_lg fst snd] in *.
+  assert (H2 : exists x2 lg2, (match h with Some (cp, hbp) => try_handlerG fx cp hbp (s_end (sc x)) hb x1 | None => (x1, []) end) = (x2, lg2)
+            /\ mono2 x1 x2 /\ cases_ok lg2 /\ lkeys_in lg2 Kh).
+  { destruct h as [[cp hbp]|].
+    - destruct (handler_A cp hbp (s_end (sc x)) hb Kh x1 Hh) as [M [C K]].
+      destruct (try_handlerG fx cp hbp (s_end (sc x)) hb x1) as [x2 lg2]. exists x2, lg2. dsplit; [reflexivity | exact M | exact C | exact K].
+    - exists x1, []. dsplit; [reflexivity | apply mono2_sc; reflexivity | apply cases_ok_nil | apply lkeys_in_nil]. }
+  destruct H2 as [x2 [lg2 [E2 [Hm2 [Hc2 Hk2]]]]]. rewrite E2.
+  assert (H3 : exists x3 lg3, (match f with Some fp => try_finalizerG fx fp (s_end (sc x)) fb x2 | None => (x2, []) end) = (x3, lg3)
+            /\ mono x2 x3 /\ cases_ok lg3 /\ lkeys_in lg3 Kf).
+  { destruct f as [fp|].
+    - destruct (finalizer_A fp (s_end (sc x)) fb Kf x2 Hf) as [M [C K]].
+      destruct (try_finalizerG fx fp (s_end (sc x)) fb x2) as [x3 lg3]. exists x3, lg3. dsplit; [reflexivity | exact M | exact C | exact K].
+    - exists x2, []. dsplit; [reflexivity | apply mono_refl | apply cases_ok_nil | apply lkeys_in_nil]. }
+  destruct H3 as [x3 [lg3 [E3 [Hm3 [Hc3 Hk3]]]]]. rewrite E3. cbn [g_st g_lg fst snd].
+  dsplit.
+  - assert (M2 : mono2 x x3).
+    { eapply mono2_trans; [|apply mono_mono2; exact Hm3]. eapply mono2_trans; [|exact Hm2].
+      eapply (mono2_trans x (set_mt x false)); [apply mono2_sc; reflexivity | apply mono_mono2; exact Hm1]. }
+    destruct M2 as [M2a M2b]. unfold try_finish. unfold mono. cbn [set_mt with_sc sc s_fb s_fc s_mt]. dsplit.
+    + intros Hx. destruct (s_end (sc x3)); [rewrite fb_mark|]; apply M2a; exact Hx.
+    + intros Hx. destruct (s_end (sc x3)); [rewrite fc_mark|]; apply M2b; exact Hx.
+    + intros Hx. rewrite Hx. apply orb_true_r.
+  - apply cases_ok_app; [exact Hc1 | apply cases_ok_app; assumption].
+  - apply lkeys_in_app; [eapply lkeys_in_weak; [exact Hk1 | apply incl_appl, incl_refl]|].
+    apply lkeys_in_app; [eapply lkeys_in_weak; [exact Hk2 | apply incl_appr, incl_appl, incl_refl] | eapply lkeys_in_weak; [exact Hk3 | apply incl_appr, incl_appr, incl_refl]].
+Qed.
+
+Lemma try_B p bp blk h hb f fb bc hc fc Rb Rh Rf Kb Kh Kf :
+  okBl blk bc Rb -> okBl hb hc Rh -> okBl fb fc Rf -> okAl blk Kb -> okAl hb Kh -> okAl fb Kf ->
+  (forall k, In k Kb -> ~ In k Rh /\ ~ In k Rf) -> (forall k, In k Kh -> ~ In k Rb /\ ~ In k Rf) ->
+  (forall k, In k Kf -> ~ In k Rb /\ ~ In k Rh) ->
+  okB (visit_tryG fx p bp blk h hb f fb) (sem_fin f (sem_catch h bc hc) fc)
+      (Rb ++ try_reach_h h bc Rh ++ try_reach_f f (sem_catch h bc hc) Rf).
+Proof.
+  intros Bb Bh Bf Ab Ah Af Db Dh Df x Hl. unfold visit_tryG.
+  assert (Hl0 : lv (set_mt x false)) by exact Hl.
+  destruct (block_end_B bp blk bc Rb Bb (set_mt x false) Hl0) as [Q1 [_ G1]].
+  destruct (block_end_A bp blk Kb Ab (set_mt x false)) as [_ [_ Hk1]].
+  destruct (block_endG bp (blk (set_mt x false))) as [[x1 r1] lg1]. cbn [g_st g_rs g_lg fst snd] in *.
+  assert (H2 : exists x2 lg2, (match h with Some (cp, hbp) => try_handlerG fx cp hbp (s_end (sc x)) hb x1 | None => (x1, []) end) = (x2, lg2)
+            /\ post_sc x2 (sem_catch h bc hc) /\ flags_ok lg2 (try_reach_h h bc Rh) /\ lkeys_in lg2 Kh).
+  { destruct h as [[cp hbp]|].
+    - destruct (handler_B cp hbp (s_end (sc x)) hb hc Rh Kh bc x1 Hl Bh Ah Q1) as [Q G].
+      destruct (handler_A cp hbp (s_end (sc x)) hb Kh x1 Ah) as [_ [_ K]].
+      destruct (try_handlerG fx cp hbp (s_end (sc x)) hb x1) as [x2 lg2]. exists x2, lg2. dsplit; [reflexivity | exact Q | exact G | exact K].
+    - exists x1, []. dsplit; [reflexivity | exact Q1 | apply flags_ok_nil | apply lkeys_in_nil]. }
+  destruct H2 as [x2 [lg2 [E2 [Q2 [G2 Hk2]]]]]. rewrite E2.
+  assert (H3 : exists x3 lg3, (match f with Some fp => try_finalizerG fx fp (s_end (sc x)) fb x2 | None => (x2, []) end) = (x3, lg3)
+            /\ post_sc x3 (sem_fin f (sem_catch h bc hc) fc) /\ flags_ok lg3 (try_reach_f f (sem_catch h bc hc) Rf) /\ lkeys_in lg3 Kf).
+  { destruct f as [fp|].
+    - destruct (finalizer_B fp (s_end (sc x)) fb fc Rf (sem_catch h bc hc) x2 Hl Bf Q2) as [Q G].
+      destruct (finalizer_A fp (s_end (sc x)) fb Kf x2 Af) as [_ [_ K]].
+      destruct (try_finalizerG fx fp (s_end (sc x)) fb x2) as [x3 lg3]. exists x3, lg3. dsplit; [reflexivity | exact Q | exact G | exact K].
+    - exists x2, []. dsplit; [reflexivity | exact Q2 | apply flags_ok_nil | apply lkeys_in_nil]. }
+  destruct H3 as [x3 [lg3 [E3 [Q3 [G3 Hk3]]]]]. rewrite E3. cbn [g_st g_rs g_lg fst snd].
+  destruct (try_finish_B p (s_mt (sc x)) x3 _ Q3) as [QF RF].
+  dsplit; [exact QF | exact RF|].
+  assert (Sh : forall k, In k (try_reach_h h bc Rh) -> In k Rh).
+  { unfold try_reach_h. destruct h; [destruct (cT bc)|]; intros k Hin; [exact Hin | destruct Hin | destruct Hin]. }
+  assert (Sf : forall k, In k (try_reach_f f (sem_catch h bc hc) Rf) -> In k Rf).
+  { unfold try_reach_f. destruct f; [destruct (cnonempty _)|]; intros k Hin; [exact Hin | destruct Hin | destruct Hin]. }
+  apply flags_ok_app_l; [|apply flags_ok_app_l].
+  - apply flags_ok_app_r; [exact G1 | apply flags_ok_app_r].
+    + eapply flags_ok_disjoint; [exact Hk1 | intros k Hk Hr; apply (proj1 (Db k Hk)), Sh, Hr].
+    + eapply flags_ok_disjoint; [exact Hk1 | intros k Hk Hr; apply (proj2 (Db k Hk)), Sf, Hr].
+  - apply flags_ok_app_r; [|apply flags_ok_app_r].
+    + eapply flags_ok_disjoint; [exact Hk2 | intros k Hk Hr; exact (proj1 (Dh k Hk) Hr)].
+    + exact G2.
+    + eapply flags_ok_disjoint; [exact Hk2 | intros k Hk Hr; apply (proj2 (Dh k Hk)), Sf, Hr].
+  - apply flags_ok_app_r; [|apply flags_ok_app_r].
+    + eapply flags_ok_disjoint; [exact Hk3 | intros k Hk Hr; exact (proj1 (Df k Hk) Hr)].
+    + eapply flags_ok_disjoint; [exact Hk3 | intros k Hk Hr; apply (proj2 (Df k Hk)), Sh, Hr].
+    + exact G3.
+Qed.
+
+(* ------------------------------------------------------------------ *)
+(* the induction *)
+Lemma reach_keys_l : (forall l k, In k (reach_l l) -> In k (keys_l l)) /\ True.
+Proof. split; [apply reach_keys | exact I]. Qed.
+
+Lemma okA_ext op op' K : (forall x, op x = op' x) -> okA op' K -> okA op K.
+Proof. intros E H x. rewrite E. apply H. Qed.
+Lemma okB_ext op op' c R : (forall x, op x = op' x) -> okB op' c R -> okB op c R.
+Proof. intros E H x. rewrite E. apply H. Qed.
+Lemma okAl_ext op op' K : (forall x, op x = op' x) -> okAl op' K -> okAl op K.
+Proof. intros E H x. rewrite E. apply H. Qed.
+Lemma okBl_ext op op' c R : (forall x, op x = op' x) -> okBl op' c R -> okBl op c R.
+Proof. intros E H x. rewrite E. apply H. Qed.
+Lemma okAc_ext op op' K : (forall x, op x = op' x) -> okAc op' K -> okAc op K.
+Proof. intros E H x. rewrite E. apply H. Qed.
+Lemma okBc_ext op op' c R : (forall x, op x = op' x) -> okBc op' c R -> okBc op c R.
+Proof. intros E H x. rewrite E. apply H. Qed.
+Lemma okA_weak op K K' : okA op K -> incl K K' -> okA op K'.
+Proof. intros H Hi x. destruct (H x) as [A [B C]]. dsplit; [exact A | exact B | eapply lkeys_in_weak; eassumption]. Qed.
+
+Lemma brk_cont_cN s ls : is_brk_or_cont s = true -> cN (csem s ls) = false.
+Proof. destruct s; try discriminate; intros _; destruct l; reflexivity. Qed.
+
+Lemma pos_in_keys s : In (pos s) (keys s).
+Proof. destruct s; cbn [pos keys]; left; reflexivity. Qed.
+
+Definition inv_s (s : stmt) : Prop :=
+  NoDup (keys s) -> okA (anG fx s) (keys s) /\ forall ls, okB (anG fx s) (csem s ls) (reach s).
+Definition inv_l (l : stmts) : Prop :=
+  NoDup (keys_l l) -> okAl (anG_list fx l) (keys_l l) /\ okBl (anG_list fx l) (csem_l l) (reach_l l).
+Definition inv_c (cs : cases) : Prop :=
+  NoDup (keys_c cs) -> okAc (anG_cases fx cs) (keys_c cs) /\ okBc (anG_cases fx cs) (snd (csem_c cs)) (reach_c cs).
+
+(* closures `fun a => orbG s (anG s a)` *)
+Lemma orb_inv s : inv_s s -> NoDup (keys s) ->
+  okA (fun a => orbG s (anG fx s a)) (keys s) /\ forall ls, okB (fun a => orbG s (anG fx s a)) (csem s ls) (reach s).
+Proof.
+  intros H Hn. destruct (H Hn) as [A B]. split; [apply orb_A; exact A|].
+  intros ls. apply orb_B; [apply B | apply brk_cont_cN].
+Qed.
+
+Ltac leaf_case V HB :=
+  split; [eapply okA_ext; [intros x; reflexivity|]; eapply (wrap_A _ V []); [|apply incl_nil_l | left; reflexivity]
+         | intros ls; eapply okB_ext; [intros x; reflexivity|]; eapply (wrap_B _ V []); [exact HB | | intros k []]].
+
+Lemma okAc_weak op K K' : okAc op K -> incl K K' -> okAc op K'.
+Proof. intros H Hi x. destruct (H x) as [A [B C]]. dsplit; [exact A | exact B | eapply lkeys_in_weak; eassumption]. Qed.
+
+Definition try_Kh (h : option (N * N)) (hb : stmts) : list N := match h with Some _ => keys_l hb | None => [] end.
+Definition try_Kf (f : option N) (fb : stmts) : list N := match f with Some _ => keys_l fb | None => [] end.
+
+Lemma try_keys_facts p bp blk h hb f fb :
+  NoDup (keys (STry p bp blk h hb f fb)) ->
+  NoDup (keys_l blk) /\ NoDup (try_Kh h hb) /\ NoDup (try_Kf f fb) /\
+  (forall k, In k (keys_l blk ++ try_Kh h hb ++ try_Kf f fb) -> k <> p /\ In k (keys (STry p bp blk h hb f fb))) /\
+  (forall k, In k (keys_l blk) -> ~ In k (try_Kh h hb) /\ ~ In k (try_Kf f fb)) /\
+  (forall k, In k (try_Kh h hb) -> ~ In k (try_Kf f fb)).
+Proof.
+  cbn [keys]. intros Hn. apply NoDup_cons_inv in Hn. destruct Hn as [Hp Hn]. apply NoDup_cons_inv in Hn. destruct Hn as [Hbp Hn].
+  apply NoDup_app_inv in Hn. destruct Hn as [Hnb [Hn D1]]. apply NoDup_app_inv in Hn. destruct Hn as [Hnh [Hnf D2]].
+  assert (Ih : incl (try_Kh h hb) (match h with Some (cp, hbp) => cp :: hbp :: keys_l hb | None => [] end)).
+  { destruct h as [[cp hbp]|]; [apply incl_tl, incl_tl, incl_refl | apply incl_refl]. }
+  assert (If : incl (try_Kf f fb) (match f with Some fp => fp :: keys_l fb | None => [] end)).
+  { destruct f as [fp|]; [apply incl_tl, incl_refl | apply incl_refl]. }
+  dsplit.
+  - exact Hnb.
+  - destruct h as [[cp hbp]|]; [|constructor]. apply NoDup_cons_inv in Hnh. destruct Hnh as [_ Hnh]. apply NoDup_cons_inv in Hnh. apply Hnh.
+  - destruct f as [fp|]; [|constructor]. apply NoDup_cons_inv in Hnf. apply Hnf.
+  - intros k Hk.
+    assert (Hin : In k (keys_l blk ++ (match h with Some (cp, hbp) => cp :: hbp :: keys_l hb | None => [] end) ++ (match f with Some fp => fp :: keys_l fb | None => [] end))).
+    { apply in_app_or in Hk. apply in_or_app. destruct Hk as [Hk|Hk]; [left; exact Hk | right].
+      apply in_app_or in Hk. apply in_or_app. destruct Hk as [Hk|Hk]; [left; apply Ih; exact Hk | right; apply If; exact Hk]. }
+    split; [intros E; apply Hp; right; rewrite <- E; exact Hin | right; right; exact Hin].
+  - intros k Hk. split; intros Hk'; apply (D1 k Hk); apply in_or_app; [left; apply Ih; exact Hk' | right; apply If; exact Hk'].
+  - intros k Hk Hk'. apply (D2 k); [apply Ih; exact Hk | apply If; exact Hk'].
+Qed.
+
+Lemma try_inv p bp blk h hb f fb :
+  inv_l blk -> (h <> None -> inv_l hb) -> (f <> None -> inv_l fb) -> inv_s (STry p bp blk h hb f fb).
+Proof.
+  intros IHb IHh IHf Hn. destruct (try_keys_facts _ _ _ _ _ _ _ Hn) as [Nb [Nh [Nf [Hsub [Dbh Dhf]]]]].
+  destruct (IHb Nb) as [Ab Bb].
+  (* handler / finalizer closures: the real ones when present, trivial ones otherwise *)
+  assert (Hh : exists hop, okAl hop (try_Kh h hb) /\ okBl hop (match h with Some _ => csem_l hb | None => only_N end) (match h with Some _ => reach_l hb | None => [] end)
+               /\ (forall g x, visit_tryG fx p bp (anG_list fx blk) h (anG_list fx hb) f g x = visit_tryG fx p bp (anG_list fx blk) h hop f g x)).
+  { destruct h as [[cp hbp]|].
+    - destruct (IHh ltac:(discriminate) Nh) as [A B]. exists (anG_list fx hb). dsplit; [exact A | exact B | reflexivity].
+    - exists (fun y => (y, [], [])). dsplit; [exact nil_A | exact nil_B | reflexivity]. }
+  destruct Hh as [hop [Ah [Bh Eh]]].
+  assert (Hf : exists fop, okAl fop (try_Kf f fb) /\ okBl fop (match f with Some _ => csem_l fb | None => only_N end) (match f with Some _ => reach_l fb | None => [] end)
+               /\ (forall x, visit_tryG fx p bp (anG_list fx blk) h hop f (anG_list fx fb) x = visit_tryG fx p bp (anG_list fx blk) h hop f fop x)).
+  { destruct f as [fp|].
+    - destruct (IHf ltac:(discriminate) Nf) as [A B]. exists (anG_list fx fb). dsplit; [exact A | exact B | reflexivity].
+    - exists (fun y => (y, [], [])). dsplit; [exact nil_A | exact nil_B | reflexivity]. }
+  destruct Hf as [fop [Af [Bf Ef]]].
+  assert (Rh_in : forall k, In k (match h with Some _ => reach_l hb | None => [] end) -> In k (try_Kh h hb)).
+  { destruct h; [intros k Hk; apply reach_keys; exact Hk | intros k []]. }
+  assert (Rf_in : forall k, In k (match f with Some _ => reach_l fb | None => [] end) -> In k (try_Kf f fb)).
+  { destruct f; [intros k Hk; apply reach_keys; exact Hk | intros k []]. }
+  assert (HA : okA (visit_tryG fx p bp (anG_list fx blk) h hop f fop) (keys_l blk ++ try_Kh h hb ++ try_Kf f fb)).
+  { apply try_A; assumption. }
+  split.
+  - eapply okA_ext; [intros x; cbn [anG]; unfold gcons; rewrite Eh, Ef; reflexivity|].
+    eapply (wrap_A (STry p bp blk h hb f fb) _ _ _ HA); [intros k Hk; apply (Hsub k Hk) | left; reflexivity].
+  - intros ls. eapply okB_ext; [intros x; cbn [anG]; unfold gcons; rewrite Eh, Ef; reflexivity|].
+    assert (HB := try_B p bp (anG_list fx blk) h hop f fop _ _ _ _ _ _ _ _ _ Bb Bh Bf Ab Ah Af).
+    assert (HB' : okB (visit_tryG fx p bp (anG_list fx blk) h hop f fop) (csem (STry p bp blk h hb f fb) ls)
+                      (reach_l blk ++ (match h with Some _ => if cT (csem_l blk) then reach_l hb else [] | None => [] end)
+                       ++ (match f with Some _ => if cnonempty (sem_catch h (csem_l blk) (csem_l hb)) then reach_l fb else [] | None => [] end))).
+    { assert (E1 : csem (STry p bp blk h hb f fb) ls =
+                   sem_fin f (sem_catch h (csem_l blk) (match h with Some _ => csem_l hb | None => only_N end)) (match f with Some _ => csem_l fb | None => only_N end)).
+      { cbn [csem]. destruct h, f; reflexivity. }
+      rewrite E1.
+      assert (E2 : (match h with Some _ => if cT (csem_l blk) then reach_l hb else [] | None => [] end) =
+                   try_reach_h h (csem_l blk) (match h with Some _ => reach_l hb | None => [] end)) by (destruct h; reflexivity).
+      assert (E3 : (match f with Some _ => if cnonempty (sem_catch h (csem_l blk) (csem_l hb)) then reach_l fb else [] | None => [] end) =
+                   try_reach_f f (sem_catch h (csem_l blk) (match h with Some _ => csem_l hb | None => only_N end)) (match f with Some _ => reach_l fb | None => [] end)).
+      { destruct h, f; reflexivity. }
+      rewrite E2, E3. apply HB.
+      - intros k Hk. destruct (Dbh k Hk) as [D1 D2]. split; intros Hr; [apply D1, Rh_in, Hr | apply D2, Rf_in, Hr].
+      - intros k Hk. split; intros Hr; [apply (proj1 (Dbh k (proj1 reach_keys_l _ _ Hr))); exact Hk | apply (Dhf k Hk), Rf_in, Hr].
+      - intros k Hk. split; intros Hr; [apply (proj2 (Dbh k (proj1 reach_keys_l _ _ Hr))); exact Hk | apply (Dhf k (Rh_in k Hr)); exact Hk]. }
+    assert (HW := wrap_B (STry p bp blk h hb f fb) _ _ _ _ HB' HA (fun k Hk => proj1 (Hsub k Hk))).
+    exact HW.
+Qed.
+
+Theorem anG_inv : (forall s, inv_s s) /\ (forall l, inv_l l) /\ (forall cs, inv_c cs).
+Proof.
+  apply stmt_mutind.
+  - (* SExpr *) intros p e Hn.
+    leaf_case (fun x => (visit_e e x, @None End, @nil gent)) (expr_B e); apply leaf_A; intros x; apply mono_visit_e.
+  - (* SEmpty *) intros p Hn.
+    leaf_case (fun x : st => (x, @None End, @nil gent)) empty_B; apply leaf_A; intros x; apply mono_refl.
+  - (* SVar *) intros p v i Hn.
+    leaf_case (fun x => (match i with Some e => visit_e e x | None => x end, @None End, @nil gent)) (var_B i);
+      apply leaf_A; intros x; (destruct i; [apply mono_visit_e | apply mono_refl]).
+  - (* SFnDecl *) intros p n pb b IHb Hn. cbn [keys] in Hn.
+    apply NoDup_cons_inv in Hn. destruct Hn as [Hp Hn]. apply NoDup_cons_inv in Hn. destruct Hn as [Hpb Hn].
+    destruct (IHb Hn) as [Ab Bb].
+    split.
+    + eapply okA_ext; [intros x; reflexivity|]. eapply (wrap_A _ (fn_likeG fx p pb (anG_list fx b)) (keys_l b)).
+      * apply fn_A. exact Ab.
+      * cbn [keys]. apply incl_tl, incl_tl, incl_refl.
+      * left. reflexivity.
+    + intros ls. eapply okB_ext; [intros x; reflexivity|]. eapply (wrap_B _ (fn_likeG fx p pb (anG_list fx b)) (keys_l b)).
+      * eapply fn_B. exact Bb.
+      * apply fn_A. exact Ab.
+      * intros k Hk E. cbn [pos] in E. subst k. apply Hp. right. exact Hk.
+  - (* SArrowStmt *) intros p pb b IHb Hn. cbn [keys] in Hn.
+    apply NoDup_cons_inv in Hn. destruct Hn as [Hp Hn]. apply NoDup_cons_inv in Hn. destruct Hn as [Hpb Hn].
+    destruct (IHb Hn) as [Ab Bb].
+    split.
+    + eapply okA_ext; [intros x; reflexivity|].
+      eapply (wrap_A _ (fun x => let '(y, r, lg) := fn_likeG fx p pb (anG_list fx b) x in (visit_lit y, r, lg)) (keys_l b)).
+      * apply arrow_A. exact Ab.
+      * cbn [keys]. apply incl_tl, incl_tl, incl_refl.
+      * left. reflexivity.
+    + intros ls. eapply okB_ext; [intros x; reflexivity|].
+      eapply (wrap_B _ (fun x => let '(y, r, lg) := fn_likeG fx p pb (anG_list fx b) x in (visit_lit y, r, lg)) (keys_l b)).
+      * eapply arrow_B. exact Bb.
+      * apply arrow_A. exact Ab.
+      * intros k Hk E. cbn [pos] in E. subst k. apply Hp. right. exact Hk.
+  - (* SRet *) intros p a Hn.
+    assert (HA : okA (fun x => let '(y, r) := visit_returnG p a x in (y, r, @nil gent)) []).
+    { intros x. unfold visit_returnG. cbn [g_st g_lg fst snd]. dsplit; [|apply cases_ok_nil | apply lkeys_in_nil].
+      eapply mono_trans; [|apply mono_mark]. destruct a; [apply mono_visit_e | apply mono_refl]. }
+    leaf_case (fun x => let '(y, r) := visit_returnG p a x in (y, r, @nil gent)) (ret_B p a); exact HA.
+  - (* SThrow *) intros p e Hn.
+    assert (HA : okA (fun x => let '(y, r) := visit_throwG fx p e x in (y, r, @nil gent)) []).
+    { intros x. unfold visit_throwG. cbn [fixD fx repaired g_st g_lg fst snd]. dsplit; [|apply cases_ok_nil | apply lkeys_in_nil].
+      eapply mono_trans; [apply mono_visit_e|]. eapply mono_trans; [apply mono_visit_lit | apply mono_mark]. }
+    leaf_case (fun x => let '(y, r) := visit_throwG fx p e x in (y, r, @nil gent)) (throw_B p e); exact HA.
+  - (* SBrk *) intros p l Hn.
+    leaf_case (fun x => (visit_break fx l x, @None End, @nil gent)) (brk_B l); apply leaf_A; intros x; apply mono_visit_break.
+  - (* SCont *) intros p l Hn.
+    leaf_case (fun x => (set_fc x true, @None End, @nil gent)) (cont_B l); apply leaf_A; intros x;
+      (repeat split; intros H; try exact H; reflexivity).
+  - (* SBlock *) intros p b IHb Hn. cbn [keys] in Hn. apply NoDup_cons_inv in Hn. destruct Hn as [Hp Hn].
+    destruct (IHb Hn) as [Ab Bb].
+    split.
+    + eapply okA_ext; [intros x; reflexivity|]. eapply (wrap_A _ (fun a => block_endG p (anG_list fx b a)) (keys_l b)).
+      * apply block_end_A. exact Ab.
+      * cbn [keys]. apply incl_tl, incl_refl.
+      * left. reflexivity.
+    + intros ls. eapply okB_ext; [intros x; reflexivity|]. eapply (wrap_B _ (fun a => block_endG p (anG_list fx b a)) (keys_l b)).
+      * apply block_end_B. exact Bb.
+      * apply block_end_A. exact Ab.
+      * intros k Hk E. cbn [pos] in E. subst k. apply Hp. exact Hk.
+  - (* SIf *) intros p c a IHa Hn. cbn [keys] in Hn. apply NoDup_cons_inv in Hn. destruct Hn as [Hp Hn].
+    destruct (orb_inv a IHa Hn) as [Aa Ba].
+    split.
+    + eapply okA_ext; [intros x; reflexivity|]. eapply (wrap_A _ (visit_ifG fx p c (pos a) (fun y => orbG a (anG fx a y))) (keys a)).
+      * apply if_A. exact Aa.
+      * cbn [keys]. apply incl_tl, incl_refl.
+      * left. reflexivity.
+    + intros ls. eapply okB_ext; [intros x; reflexivity|]. eapply (wrap_B _ (visit_ifG fx p c (pos a) (fun y => orbG a (anG fx a y))) (keys a)).
+      * apply if_B. apply Ba.
+      * apply if_A. exact Aa.
+      * intros k Hk E. cbn [pos] in E. subst k. apply Hp. exact Hk.
+  - (* SIfElse *) intros p c a IHa b IHb Hn. cbn [keys] in Hn. apply NoDup_cons_inv in Hn. destruct Hn as [Hp Hn].
+    apply NoDup_app_inv in Hn. destruct Hn as [Hna [Hnb Hdis]].
+    destruct (orb_inv a IHa Hna) as [Aa Ba]. destruct (orb_inv b IHb Hnb) as [Ab Bb].
+    split.
+    + eapply okA_ext; [intros x; reflexivity|].
+      eapply (wrap_A _ (visit_if_elseG fx p c (pos a) (fun y => orbG a (anG fx a y)) (pos b) (fun y => orbG b (anG fx b y))) (keys a ++ keys b)).
+      * apply if_else_A; assumption.
+      * cbn [keys]. apply incl_tl, incl_refl.
+      * left. reflexivity.
+    + intros ls. eapply okB_ext; [intros x; reflexivity|].
+      eapply (wrap_B _ (visit_if_elseG fx p c (pos a) (fun y => orbG a (anG fx a y)) (pos b) (fun y => orbG b (anG fx b y))) (keys a ++ keys b)).
+      * eapply if_else_B; [apply Ba | apply Bb | exact Aa | exact Ab | |].
+        -- intros k Hk Hr. apply (Hdis k Hk). apply reach_keys. exact Hr.
+        -- intros k Hk Hr. apply (Hdis k); [apply reach_keys; exact Hr | exact Hk].
+      * apply if_else_A; assumption.
+      * intros k Hk E. cbn [pos] in E. subst k. apply Hp. exact Hk.
+  - (* SWhile *) intros p c b IHb Hn. cbn [keys] in Hn. apply NoDup_cons_inv in Hn. destruct Hn as [Hp Hn].
+    destruct (IHb Hn) as [Ab Bb].
+    split.
+    + eapply okA_ext; [intros x; reflexivity|]. eapply (wrap_A _ (visit_whileG fx c (pos b) (anG fx b)) (keys b)).
+      * apply while_A. exact Ab.
+      * cbn [keys]. apply incl_tl, incl_refl.
+      * left. reflexivity.
+    + intros ls. eapply okB_ext; [intros x; reflexivity|]. eapply (wrap_B _ (visit_whileG fx c (pos b) (anG fx b)) (keys b)).
+      * apply while_B. apply Bb.
+      * apply while_A. exact Ab.
+      * intros k Hk E. cbn [pos] in E. subst k. apply Hp. exact Hk.
+  - (* SDoWhile *) intros p b IHb c Hn. cbn [keys] in Hn. apply NoDup_cons_inv in Hn. destruct Hn as [Hp Hn].
+    destruct (IHb Hn) as [Ab Bb].
+    split.
+    + eapply okA_ext; [intros x; reflexivity|]. eapply (wrap_A _ (visit_do_whileG fx p c (pos b) (anG fx b)) (keys b)).
+      * apply dowhile_A. exact Ab.
+      * cbn [keys]. apply incl_tl, incl_refl.
+      * left. reflexivity.
+    + intros ls. eapply okB_ext; [intros x; reflexivity|]. eapply (wrap_B _ (visit_do_whileG fx p c (pos b) (anG fx b)) (keys b)).
+      * apply dowhile_B. apply Bb.
+      * apply dowhile_A. exact Ab.
+      * intros k Hk E. cbn [pos] in E. subst k. apply Hp. exact Hk.
+  - (* SFor *) intros p c b IHb Hn. cbn [keys] in Hn. apply NoDup_cons_inv in Hn. destruct Hn as [Hp Hn].
+    destruct (IHb Hn) as [Ab Bb].
+    split.
+    + eapply okA_ext; [intros x; reflexivity|]. eapply (wrap_A _ (visit_forG fx p c (pos b) (anG fx b)) (keys b)).
+      * apply for_A. exact Ab.
+      * cbn [keys]. apply incl_tl, incl_refl.
+      * left. reflexivity.
+    + intros ls. eapply okB_ext; [intros x; reflexivity|].
+      assert (HB := wrap_B (SFor p c b) (visit_forG fx p c (pos b) (anG fx b)) (keys b) _ _ (for_B p c (pos b) (anG fx b) _ _ ls (Bb [])) (for_A p c (pos b) _ _ Ab)).
+      destruct c as [c|]; apply HB; intros k Hk E; cbn [pos] in E; subst k; apply Hp; exact Hk.
+  - (* SForIn *) intros p b IHb Hn. cbn [keys] in Hn. apply NoDup_cons_inv in Hn. destruct Hn as [Hp Hn].
+    destruct (IHb Hn) as [Ab Bb].
+    split.
+    + eapply okA_ext; [intros x; reflexivity|]. eapply (wrap_A _ (visit_for_inG fx (pos b) (anG fx b)) (keys b)).
+      * apply for_in_A. exact Ab.
+      * cbn [keys]. apply incl_tl, incl_refl.
+      * left. reflexivity.
+    + intros ls. eapply okB_ext; [intros x; reflexivity|]. eapply (wrap_B _ (visit_for_inG fx (pos b) (anG fx b)) (keys b)).
+      * apply for_in_B. apply Bb.
+      * apply for_in_A. exact Ab.
+      * intros k Hk E. cbn [pos] in E. subst k. apply Hp. exact Hk.
+  - (* SForOf *) intros p b IHb Hn. cbn [keys] in Hn. apply NoDup_cons_inv in Hn. destruct Hn as [Hp Hn].
+    destruct (IHb Hn) as [Ab Bb].
+    split.
+    + eapply okA_ext; [intros x; reflexivity|]. eapply (wrap_A _ (visit_for_inG fx (pos b) (anG fx b)) (keys b)).
+      * apply for_in_A. exact Ab.
+      * cbn [keys]. apply incl_tl, incl_refl.
+      * left. reflexivity.
+    + intros ls. eapply okB_ext; [intros x; reflexivity|]. eapply (wrap_B _ (visit_for_inG fx (pos b) (anG fx b)) (keys b)).
+      * apply for_in_B. apply Bb.
+      * apply for_in_A. exact Ab.
+      * intros k Hk E. cbn [pos] in E. subst k. apply Hp. exact Hk.
+  - (* SSwitch *) intros p cs IHc Hn. cbn [keys] in Hn. apply NoDup_cons_inv in Hn. destruct Hn as [Hp Hn].
+    destruct (IHc Hn) as [Ac Bc].
+    split.
+    + eapply okA_ext; [intros x; reflexivity|]. eapply (wrap_A _ (visit_switchG p cs (anG_cases fx cs)) (keys_c cs)).
+      * apply switch_A. exact Ac.
+      * cbn [keys]. apply incl_tl, incl_refl.
+      * left. reflexivity.
+    + intros ls. eapply okB_ext; [intros x; reflexivity|]. eapply (wrap_B _ (visit_switchG p cs (anG_cases fx cs)) (keys_c cs)).
+      * apply switch_B. exact Bc.
+      * apply switch_A. exact Ac.
+      * intros k Hk E. cbn [pos] in E. subst k. apply Hp. exact Hk.
+  - (* SLabel *) intros p l b IHb Hn. cbn [keys] in Hn. apply NoDup_cons_inv in Hn. destruct Hn as [Hp Hn].
+    destruct (orb_inv b IHb Hn) as [Ab Bb].
+    split.
+    + eapply okA_ext; [intros x; reflexivity|].
+      eapply (wrap_A _ (fun x => let '(y, _, lg) := with_childG fx (KLabel l) p (fun a => orbG b (anG fx b a)) x in (y, None, lg)) (keys b)).
+      * apply label_A. exact Ab.
+      * cbn [keys]. apply incl_tl, incl_refl.
+      * left. reflexivity.
+    + intros ls. eapply okB_ext; [intros x; reflexivity|].
+      eapply (wrap_B _ (fun x => let '(y, _, lg) := with_childG fx (KLabel l) p (fun a => orbG b (anG fx b a)) x in (y, None, lg)) (keys b)).
+      * apply (label_B l p _ (csem b (l :: ls)) (reach b)). apply Bb.
+      * apply label_A. exact Ab.
+      * intros k Hk E. cbn [pos] in E. subst k. apply Hp. exact Hk.
+  - (* STry *) intros p bp blk IHb h hb IHh f fb IHf. apply try_inv; [exact IHb | intros _; exact IHh | intros _; exact IHf].
+  - (* SNil *) intros _. split; [exact nil_A | exact nil_B].
+  - (* SCons *) intros s IHs r IHr Hn. cbn [keys_l] in Hn. apply NoDup_app_inv in Hn. destruct Hn as [Hns [Hnr Hdis]].
+    destruct (orb_inv s IHs Hns) as [As Bs]. destruct (IHr Hnr) as [Ar Br].
+    split.
+    + eapply okAl_ext; [|apply (cons_A s (fun a => orbG s (anG fx s a)) (anG_list fx r) _ _ As Ar)].
+      intros x. cbn [anG_list]. unfold consG. reflexivity.
+    + eapply okBl_ext; [|apply (cons_B s (fun a => orbG s (anG fx s a)) (anG_list fx r) _ _ _ _ _ _ (Bs []) Br As Ar)].
+      * intros x. cbn [anG_list]. unfold consG. reflexivity.
+      * intros k Hk Hr. apply (Hdis k Hk). apply reach_keys. exact Hr.
+      * intros k Hk Hr. apply (Hdis k); [apply reach_keys; exact Hr | exact Hk].
+  - (* CNil *) intros _. split; [exact nilC_A | exact nilC_B].
+  - (* CCons *) intros cp d ft b IHb r IHr Hn. cbn [keys_c] in Hn. apply NoDup_cons_inv in Hn. destruct Hn as [Hp Hn].
+    apply NoDup_app_inv in Hn. destruct Hn as [Hnb [Hnr Hdis]].
+    destruct (IHb Hnb) as [Ab Bb]. destruct (IHr Hnr) as [Ar Br].
+    split.
+    + eapply okAc_ext; [|eapply okAc_weak; [apply (consC_A (visit_caseG fx cp b (anG_list fx b)) (anG_cases fx r) _ _ (case_A cp b _ _ _ Ab Bb) Ar)|]].
+      * intros x. cbn [anG_cases]. unfold consC. reflexivity.
+      * cbn [keys_c]. apply incl_tl, incl_refl.
+    + eapply okBc_ext; [|apply (consC_B cp b (anG_list fx b) (anG_cases fx r) (csem_l b) r _ _ _ _ Bb Ab Bb eq_refl Br Ar)].
+      * intros x. cbn [anG_cases]. unfold consC. reflexivity.
+      * intros k Hk Hr. apply (Hdis k Hk). apply reach_keys. exact Hr.
+      * intros k Hk Hr. apply (Hdis k); [apply reach_keys; exact Hr | exact Hk].
+Qed.
+
+(* ------------------------------------------------------------------ *)
+(* program level, for the ghost analyzer with all repairs on *)
+Lemma init_lv : lv init_st.
+Proof. reflexivity. Qed.
+
+(* every logged `unreachable = true` was written while the scope was dead *)
+Lemma stmt_unreachable_dead s x : stmt_unreachable s x = true -> dead_now x = true.
+Proof. destruct s; cbn [stmt_unreachable]; try (intros H; exact H); try discriminate; intros H; apply andb_true_iff in H; apply H. Qed.
+
+Theorem ghost_sound (p : program) :
+  NoDup (keys_l (p_body p)) ->
+  (* C10: a statement visited while the scope was dead is not entered *)
+  (forall k fl, In (GStmt k true fl) (g_lg (analyzeG fx p)) -> ~ In k (prog_reach p)) /\
+  (* C11 getter: if the body can fall off its end, the end reason of the body block does not "stop" *)
+  (prog_can_fall_off p = true -> live (g_rs (analyzeG fx p)) = true) /\
+  (* C11 case: a case of a switch analysed live whose consequent is claimed to stop cannot complete normally *)
+  (forall b, In (GCase b true true) (g_lg (analyzeG fx p)) -> cN (csem_l b) = false).
+Proof.
+  intros Hn. destruct anG_inv as [_ [Hl _]]. destruct (Hl (p_body p) Hn) as [A B].
+  unfold analyzeG, prog_reach, prog_can_fall_off.
+  destruct (block_end_B (p_pb p) _ _ _ B init_st init_lv) as [_ [Hr Hf]].
+  destruct (block_end_A (p_pb p) _ _ A init_st) as [_ [Hc _]].
+  dsplit.
+  - exact Hf.
+  - intros Hn'. rewrite live_not_dead. destruct (dead (g_rs (block_endG (p_pb p) (anG_list fx (p_body p) init_st)))) eqn:Ed; [|reflexivity].
+    rewrite (Hr eq_refl) in Hn'. discriminate.
+  - exact Hc.
+Qed.
+
+Print Assumptions anG_inv.
+Print Assumptions ghost_sound.
